@@ -119,6 +119,24 @@ class Report:
                 n += 1
         return n
 
+    def arbitrate(self, old_rules, new_rule: str, what: str, pred=None) -> int:
+        """A structural rule is a sufficient condition phrased on the shape of the code; the explicit-game rule `new_rule` decides
+        the same clause on whole small games. When the structural rule reports a violation but *every* instance of `new_rule` holds
+        (and its floor is met), the structural finding is contradicted on the games where the clause can be checked exactly: it is
+        recorded as undecided (exit 2, no VIOLATION line) — the code shape is not one the structural rule understands, and beyond
+        the small games nothing is known. A violation reported by `new_rule` itself, or by a rule without such a counterpart, stands."""
+        new = [i for i in self.instances if i.rule == new_rule]
+        if not new or len(new) < self.floors.get(new_rule, 1) or any(i.verdict != HOLDS for i in new):
+            return 0
+        n = 0
+        for i in self.instances:
+            if i.rule in old_rules and i.verdict == VIOLATED and (pred is None or pred(i)):
+                i.verdict = UNDECIDED
+                i.message = (f"[structural finding contradicted on the explicit small games: the clause ({what}) is decided by {new_rule}, which holds on all {len(new)} instances; "
+                             f"undecided beyond them] " + i.message)
+                n += 1
+        return n
+
     # ------------------------------------------------------------ finishing
     def _known(self) -> List[Dict[str, Any]]:
         if not os.path.exists(KNOWN_FINDINGS):
